@@ -270,8 +270,8 @@ func cmdCheck(args []string) int {
 			if *only != "" {
 				continue
 			}
-			if e.Kind == "safe" {
-				continue // the dereference/index no longer exists
+			if e.Kind == "safe" || e.Kind == "frame" || strings.Contains(e.Name, "/auto-range-bound") {
+				continue // generated without a contract clause: the code construct no longer exists
 			}
 			if isKnown(e.Name) != nil {
 				continue
